@@ -439,6 +439,10 @@ func startServers(cfg *config.Config, stats metrics.Provider) {
 				lastPorts := []string{}
 				for {
 					time.Sleep(l.Refresh)
+					// do not bring the listeners back which the shutdown closes
+					if atomic.LoadInt32(&shuttingDown) > 0 {
+						return
+					}
 					table := route.GetTable()
 					ports := []string{}
 					for target, rts := range table {
